@@ -38,6 +38,7 @@ structure Rel (C : TQContract) (m : C05.M) (s : State) : Prop where
   disjIN : ∀ id, id ∈ m.imms.map (·.id) → id ∉ m.nets.map (·.id)
   disjIT : ∀ id, id ∈ m.imms.map (·.id) → id ∉ m.tms.map (·.id)
   disjNT : ∀ id, id ∈ m.nets.map (·.id) → id ∉ m.tms.map (·.id)
+  done : m.done = s.done
 
 /-- the part of the monitor's state that API calls do not touch -/
 def Ctl (m m' : C05.M) : Prop :=
@@ -112,7 +113,7 @@ theorem rel_regImm {C : TQContract} {m : C05.M} {s : State} (r : Rel C m s) (id 
   obtain ⟨q', heq, hq'⟩ := immRegister_rq s.imm m.imms id prio r.imm hp
   refine ⟨q', { m with imms := m.imms ++ [⟨id, prio⟩] }, heq, ?_, ?_, Ctl.refl _⟩
   · simp only [C05.step, dropId_of_fresh m id f1 f2 f3]; rfl
-  · refine ⟨r.clock, r.intr, hq', ?_, r.net, r.tm, ?_, ?_, r.disjNT⟩
+  · refine ⟨r.clock, r.intr, hq', ?_, r.net, r.tm, ?_, ?_, r.disjNT, r.done⟩
     · unfold IdsNodup
       rw [List.map_append, List.nodup_append]
       refine ⟨r.immIds, by simp, ?_⟩
@@ -144,7 +145,7 @@ theorem rel_remove_imm {C : TQContract} {m : C05.M} {s : State} (r : Rel C m s) 
   have e2 := filter_id_self m.nets (·.id) id (r.disjIN id hin)
   have e3 := filter_id_self m.tms (·.id) id (r.disjIT id hin)
   refine ⟨by unfold C05.dropId; rw [e2, e3], ?_⟩
-  refine ⟨r.clock, r.intr, hq', filter_idsNodup r.immIds id, r.net, r.tm, ?_, ?_, r.disjNT⟩
+  refine ⟨r.clock, r.intr, hq', filter_idsNodup r.immIds id, r.net, r.tm, ?_, ?_, r.disjNT, r.done⟩
   · intro id' hid'
     apply r.disjIN id'
     obtain ⟨x, hx, rfl⟩ := List.mem_map.mp hid'
@@ -209,7 +210,7 @@ theorem rel_regNet_ok {C : TQContract} {m : C05.M} {s : State} (r : Rel C m s) (
       rw [hfree] at h0; cases h0
   refine ⟨{ m with nets := ⟨id, fd, d, false⟩ :: m.nets }, ?_, ?_, Ctl.refl _⟩
   · simp only [C05.step, hnl, Bool.false_eq_true, if_false, dropId_of_fresh m id f1 f2 f3]; rfl
-  · refine ⟨r.clock, r.intr, r.imm, r.immIds, ⟨hinv, ?_, ?_, ?_⟩, r.tm, ?_, r.disjIT, ?_⟩
+  · refine ⟨r.clock, r.intr, r.imm, r.immIds, ⟨hinv, ?_, ?_, ?_⟩, r.tm, ?_, r.disjIT, ?_, r.done⟩
     · show (List.map (·.id) (⟨id, fd, d, false⟩ :: m.nets)).Nodup
       simp only [List.map_cons, List.nodup_cons]
       exact ⟨f2, r.net.ids⟩
@@ -393,7 +394,7 @@ theorem rel_cancelNet_ok {C : TQContract} {m : C05.M} {s : State} (r : Rel C m s
         · right; exact fun h2 => this ⟨h1, h2⟩
         · left; exact h1
     refine ⟨r.clock, r.intr, r.imm, r.immIds,
-      rnet_drop r.net id fd d sk pp hS hpp hget hdrop hinv hsub (nodup_filter_ids _ _ _ r.net.ids), r.tm, ?_, r.disjIT, ?_⟩
+      rnet_drop r.net id fd d sk pp hS hpp hget hdrop hinv hsub (nodup_filter_ids _ _ _ r.net.ids), r.tm, ?_, r.disjIT, ?_, r.done⟩
     · intro id' hid' hmem
       obtain ⟨x, hx, rfl⟩ := List.mem_map.mp hmem
       exact r.disjIN _ hid' (List.mem_map.mpr ⟨x, ((hsub x).mp hx).1, rfl⟩)
@@ -436,7 +437,7 @@ theorem hot_expanded {n n1 : Net} (hx : Expanded n n1) (h0 : Inv0 n) (fd : Nat) 
 theorem rel_net_expanded {C : TQContract} {m : C05.M} {s : State} (r : Rel C m s) (n1 : Net)
     (hx : Expanded s.net n1) (hinv : Inv n1) : Rel C m { s with net := n1 } := by
   have hslot : ∀ i d, slot n1 i d = slot s.net i d := by intro i d; unfold slot; rw [hx.S]
-  refine ⟨r.clock, r.intr, r.imm, r.immIds, ⟨hinv, r.net.ids, ?_, ?_⟩, r.tm, r.disjIN, r.disjIT, r.disjNT⟩
+  refine ⟨r.clock, r.intr, r.imm, r.immIds, ⟨hinv, r.net.ids, ?_, ?_⟩, r.tm, r.disjIN, r.disjIT, r.disjNT, r.done⟩
   · intro id fd d; show _ ↔ slot n1 fd d = some id; rw [hslot]; exact r.net.iff id fd d
   · intro x hx' hrdy
     exact hot_expanded hx r.net.inv.inv0 x.fd x.d ⟨x.id, (r.net.iff x.id x.fd x.d).mp ⟨x.ready, hx'⟩⟩ (r.net.ready x hx' hrdy)
